@@ -209,6 +209,8 @@ class Report:
         self.trusted: list[str] = []
         self.assumptions: list[str] = []
         self.extra: dict = {}
+        self._seen_keys: set = set()
+        self._dup = 0
 
     def obligation(self, name, kind, ok, detail=""):
         self.obligations.append({"name": name, "kind": kind, "ok": bool(ok), "detail": detail[:400]})
@@ -234,6 +236,11 @@ class Report:
                     self.known_hit.append(k["id"])
                     print(f"KNOWN-FINDING: property={self.prop} {k['what']}")
                 return False
+        if finding_key is not None:
+            if finding_key in self._seen_keys:
+                self._dup += 1
+                return False
+            self._seen_keys.add(finding_key)
         replay = dict(replay)
         replay.update({"property": self.prop, "what": what, "seed": SEED, "tier": self.tier,
                        "found_failing_input": found_input,
